@@ -402,7 +402,30 @@ func TestC21(t *testing.T) {
 	rapid.Check(t, func(rt *rapid.T) { c := genC21(rt); run(rt, c) })
 }
 
+// c21Stats is what one execution did (judged from the hook log).
+type c21Stats struct {
+	nt     bool
+	maxOcc int
+	cls    []string
+}
+
+func c21Failf(sig, format string, args ...any) (string, string) {
+	return sig, fmt.Sprintf(format, args...)
+}
+
 func runC21(s *kit.Session, f kit.Failer, c c21Case) {
+	sig, msg, st := c21Exec(c, nil)
+	if sig != "" {
+		s.Fail(f, c, sig, "%s", msg)
+		return
+	}
+	s.Note(c, st.nt, st.cls...)
+}
+
+// c21Exec builds and runs one case against the real ROB and returns the first
+// violation ("" when there is none). rec, when given, records the
+// determinism fingerprint (C03).
+func c21Exec(c c21Case, fp *fpRec) (sig, msg string, st c21Stats) {
 	timing.ResetIDGenerator()
 	engine := timing.NewSerialEngine()
 	budget := &eventBudget{max: 3_000_000}
@@ -492,13 +515,33 @@ func runC21(s *kit.Session, f kit.Failer, c c21Case) {
 		}
 	})
 
+	if fp != nil {
+		ports := []messaging.Port{top, bottom, ctrl, lowPort}
+		for _, r := range reqs {
+			ports = append(ports, r.port)
+		}
+		fp.attach(engine, ports)
+	}
+
 	for _, r := range reqs {
 		r.comp.TickLater()
 	}
 
-	if ok, sig, msg := kit.Guard(func() { _ = engine.Run() }); !ok {
-		s.Fail(f, c, normSig(sig), "%s", msg)
+	if ok, psig, pmsg := kit.Guard(func() { _ = engine.Run() }); !ok {
+		sig, msg = normSig(psig), pmsg
 		return
+	}
+	if fp != nil {
+		fp.addFinal("component", robComp.Name(), robComp.State)
+		fp.addFinal("component", lowComp.Name(), lowComp.State)
+		for _, r := range reqs {
+			fp.addFinal("component", r.comp.Name(), r.comp.State)
+		}
+		fp.addFinal("connection", topConn.Name(), topConn.State)
+		if botConn != topConn {
+			fp.addFinal("connection", botConn.Name(), botConn.State)
+		}
+		fp.finish()
 	}
 
 	// ---------------- judge
@@ -506,7 +549,7 @@ func runC21(s *kit.Session, f kit.Failer, c c21Case) {
 	idToReq := map[uint64]int{} // original request id -> index
 	for _, r := range reqs {
 		if r.next != len(r.script) {
-			s.Fail(f, c, "request-never-accepted", "requester %d could issue only %d of %d requests before the simulation went idle",
+			sig, msg = c21Failf("request-never-accepted", "requester %d could issue only %d of %d requests before the simulation went idle",
 				r.idx, r.next, len(r.script))
 			return
 		}
@@ -524,26 +567,26 @@ func runC21(s *kit.Session, f kit.Failer, c c21Case) {
 	for k, sn := range low.seen {
 		ar, isAccess := sn.msg.(memprotocol.AccessReq)
 		if !isAccess {
-			s.Fail(f, c, "shadow-type", "lower unit received %T", sn.msg)
+			sig, msg = c21Failf("shadow-type", "lower unit received %T", sn.msg)
 			return
 		}
 		i, known := low.byAddr[ar.GetAddress()]
 		if !known {
-			s.Fail(f, c, "shadow-address", "lower unit received a request for address %#x that no requester asked for", ar.GetAddress())
+			sig, msg = c21Failf("shadow-address", "lower unit received a request for address %#x that no requester asked for", ar.GetAddress())
 			return
 		}
 		if shadowOf[i] >= 0 {
-			s.Fail(f, c, "shadow-duplicate", "request %d (address %#x) was forwarded to the lower unit twice", i, ar.GetAddress())
+			sig, msg = c21Failf("shadow-duplicate", "request %d (address %#x) was forwarded to the lower unit twice", i, ar.GetAddress())
 			return
 		}
 		shadowOf[i] = k
 		shadowIDToReq[sn.msg.Meta().ID] = i
 		if d := c21ShadowDiff(&c, i, sn.msg); d != "" {
-			s.Fail(f, c, "shadow-fields", "request %d forwarded with different %s", i, d)
+			sig, msg = c21Failf("shadow-fields", "request %d forwarded with different %s", i, d)
 			return
 		}
 		if sn.msg.Meta().Src != bottom.AsRemote() {
-			s.Fail(f, c, "shadow-src", "shadow of request %d has Src %q", i, sn.msg.Meta().Src)
+			sig, msg = c21Failf("shadow-src", "shadow of request %d has Src %q", i, sn.msg.Meta().Src)
 			return
 		}
 	}
@@ -561,7 +604,7 @@ func runC21(s *kit.Session, f kit.Failer, c c21Case) {
 		case evTopIn:
 			i, ok := idToReq[e.msg.Meta().ID]
 			if !ok || accepted[i] {
-				s.Fail(f, c, "accept-unknown", "ROB retrieved message id %d from Top which is not an outstanding request", e.msg.Meta().ID)
+				sig, msg = c21Failf("accept-unknown", "ROB retrieved message id %d from Top which is not an outstanding request", e.msg.Meta().ID)
 				return
 			}
 			accepted[i] = true
@@ -571,7 +614,7 @@ func runC21(s *kit.Session, f kit.Failer, c c21Case) {
 				maxOcc = occ
 			}
 			if occ > c.BufferSize {
-				s.Fail(f, c, "buffer-overflow", "%d requests in a reorder buffer of size %d", occ, c.BufferSize)
+				sig, msg = c21Failf("buffer-overflow", "%d requests in a reorder buffer of size %d", occ, c.BufferSize)
 				return
 			}
 			if occ == c.BufferSize {
@@ -581,33 +624,33 @@ func runC21(s *kit.Session, f kit.Failer, c c21Case) {
 			sent = append(sent, e.msg)
 			k := len(sent) - 1
 			if k >= len(arrival) {
-				s.Fail(f, c, "extra-response", "response #%d (RspTo %d) sent on Top but only %d requests were accepted so far",
+				sig, msg = c21Failf("extra-response", "response #%d (RspTo %d) sent on Top but only %d requests were accepted so far",
 					k, e.msg.Meta().RspTo, len(arrival))
 				return
 			}
 			want := arrival[k]
 			wantID := reqs[c.Reqs[want].Src].sent[want].Meta().ID
 			if got := e.msg.Meta().RspTo; got != wantID {
-				sig := "rspto-not-a-request-id"
+				fsig := "rspto-not-a-request-id"
 				if j, ok := idToReq[got]; ok {
-					sig = "release-order"
+					fsig = "release-order"
 					if released[j] {
-						sig = "duplicate-response"
+						fsig = "duplicate-response"
 					}
 				} else if _, ok := shadowIDToReq[got]; ok {
-					sig = "rspto-is-shadow-id"
+					fsig = "rspto-is-shadow-id"
 				}
-				s.Fail(f, c, sig, "response #%d on Top has RspTo %d; the #%d accepted request is request %d with id %d (accept order %v)",
+				sig, msg = c21Failf(fsig, "response #%d on Top has RspTo %d; the #%d accepted request is request %d with id %d (accept order %v)",
 					k, got, k, want, wantID, arrival)
 				return
 			}
 			if !completed[want] {
-				s.Fail(f, c, "released-before-completion", "response to request %d sent before the lower unit's answer reached the ROB", want)
+				sig, msg = c21Failf("released-before-completion", "response to request %d sent before the lower unit's answer reached the ROB", want)
 				return
 			}
 			released[want] = true
 			if d := c21RspDiff(&c, want, e.msg, reqs, low, shadowOf); d != "" {
-				s.Fail(f, c, d, "response to request %d (%+v): %s mismatch: %s", want, c.Reqs[want], d, c21Describe(e.msg))
+				sig, msg = c21Failf(d, "response to request %d (%+v): %s mismatch: %s", want, c.Reqs[want], d, c21Describe(e.msg))
 				return
 			}
 			occ--
@@ -647,11 +690,11 @@ func runC21(s *kit.Session, f kit.Failer, c c21Case) {
 	}
 
 	if len(sent) != n || len(arrival) != n {
-		sig := "missing-response"
+		fsig := "missing-response"
 		if len(arrival) != n {
-			sig = "request-never-accepted"
+			fsig = "request-never-accepted"
 		}
-		s.Fail(f, c, sig, "%d requests issued, %d accepted by the ROB, %d responses sent on Top when the simulation went idle (ROB holds %d transactions)",
+		sig, msg = c21Failf(fsig, "%d requests issued, %d accepted by the ROB, %d responses sent on Top when the simulation went idle (ROB holds %d transactions)",
 			n, len(arrival), len(sent), len(robComp.State.Transactions))
 		return
 	}
@@ -665,12 +708,12 @@ func runC21(s *kit.Session, f kit.Failer, c c21Case) {
 			}
 		}
 		if len(want) != len(r.got) {
-			s.Fail(f, c, "delivery", "requester %d received %d responses, %d were sent to it", r.idx, len(r.got), len(want))
+			sig, msg = c21Failf("delivery", "requester %d received %d responses, %d were sent to it", r.idx, len(r.got), len(want))
 			return
 		}
 		for k := range want {
 			if want[k].Meta().ID != r.got[k].Meta().ID {
-				s.Fail(f, c, "delivery", "requester %d received message %d at position %d, %d was sent", r.idx, r.got[k].Meta().ID, k, want[k].Meta().ID)
+				sig, msg = c21Failf("delivery", "requester %d received message %d at position %d, %d was sent", r.idx, r.got[k].Meta().ID, k, want[k].Meta().ID)
 				return
 			}
 		}
@@ -678,17 +721,17 @@ func runC21(s *kit.Session, f kit.Failer, c c21Case) {
 
 	// nothing outstanding
 	if l := len(robComp.State.Transactions); l != 0 {
-		s.Fail(f, c, "leftover", "%d transactions left in the ROB after Run returned", l)
+		sig, msg = c21Failf("leftover", "%d transactions left in the ROB after Run returned", l)
 		return
 	}
 	for _, p := range []messaging.Port{top, bottom, ctrl, lowPort} {
 		if p.NumIncoming() != 0 || p.NumOutgoing() != 0 {
-			s.Fail(f, c, "leftover", "port %s holds %d incoming / %d outgoing messages after Run returned", p.Name(), p.NumIncoming(), p.NumOutgoing())
+			sig, msg = c21Failf("leftover", "port %s holds %d incoming / %d outgoing messages after Run returned", p.Name(), p.NumIncoming(), p.NumOutgoing())
 			return
 		}
 	}
 	if len(low.inflight) != 0 {
-		s.Fail(f, c, "leftover", "lower unit still holds %d requests", len(low.inflight))
+		sig, msg = c21Failf("leftover", "lower unit still holds %d requests", len(low.inflight))
 		return
 	}
 
@@ -714,7 +757,8 @@ func runC21(s *kit.Session, f kit.Failer, c c21Case) {
 	add(c.NumRequesters > 1, "multi-requester")
 	add(c.Conns == 2, "two-connections")
 	add(maxOcc >= 8, "occupancy>=8")
-	s.Note(c, nt, cls...)
+	st.nt, st.maxOcc, st.cls = nt, maxOcc, cls
+	return
 }
 
 func c21ShadowDiff(c *c21Case, i int, m messaging.Msg) string {
